@@ -214,7 +214,9 @@ def check_wrap(ctx: CheckContext, p: Program, r: Resolver, funcs: List[FuncInfo]
                     continue
                 n += 1
                 guarded = bool(names & _guard_names(f, node))
-                neg = sorted(k for k in ws if k < 0)
+                # a negative value that is a plain literal (-1 = "the last row") is the Python idiom, chosen on purpose; only a negative value that
+                # comes out of arithmetic on a value that can be 0 (x - 1) is a wrap-around
+                neg = sorted(k for k in ws if k < 0 and (" - " in ws[k] or " + " in ws[k]))
                 ok = not neg or guarded
                 ctx.ob(rule, f"{f.qualname}:{norm_stmt(node)}:{kind_}", f"{f.module.relpath}:{node.lineno}", ok,
                        "" if ok else f"{kind_} `{ast.unparse(e)}` can be {neg[0]} (witness: {ws[neg[0]]}); a negative {kind_} counts from the END of the array, "
